@@ -63,10 +63,18 @@ type mirror struct {
 	o     *ev.Outcome
 	nodes int
 	kinds map[string]bool
+	// seen: every node met, in order (for the queries of the second pass)
+	seen []yang.Node
+	// again: this is the second pass (after processing and read-only queries); signatures say so
+	again bool
 }
 
 func (m *mirror) fail(clause, sig, format string, args ...any) {
 	if len(m.o.Violations) == 0 {
+		if m.again {
+			sig = "after-process-and-queries/" + sig
+			format = "after Process and read-only queries: " + format
+		}
 		m.o.Violate(clause, "C03/"+sig, format, args...)
 	}
 }
@@ -78,6 +86,7 @@ func (m *mirror) check(n yang.Node, s *yang.Statement, parent yang.Node) {
 	}
 	m.nodes++
 	m.kinds[s.Keyword] = true
+	m.seen = append(m.seen, n)
 	at := s.Keyword + " at " + s.Location()
 	if d := stmtEqual(n.Statement(), s); d != "" {
 		m.fail("back-reference", "back-reference/"+kwClass(s.Keyword), "node for %s refers back to a different statement: %s", at, d)
@@ -258,6 +267,11 @@ func check(c Case) (o ev.Outcome) {
 		return
 	}
 	o.Class("accepted")
+	type built struct {
+		mod *yang.Module
+		s   *yang.Statement
+	}
+	var checked []built
 	m := &mirror{o: &o, kinds: map[string]bool{}}
 	for _, s := range ss {
 		if s.Keyword != "module" && s.Keyword != "submodule" {
@@ -306,8 +320,32 @@ func check(c Case) (o ev.Outcome) {
 			}
 		}
 		m.check(mod, s, nil)
+		checked = append(checked, built{mod, s})
 	}
 	o.NonTrivial = m.nodes >= 6 && len(m.kinds) >= 3
+	if len(o.Violations) > 0 || len(checked) == 0 {
+		return o
+	}
+	// Second pass: the tree is a mirror of the text, not a state that the next reader changes. Processing the set
+	// and asking every node the read-only questions of the Node interface and for its extensions of a given name
+	// leaves the correspondence as it was.
+	if !ev.Guard(&o, "process and query", func() {
+		ms.Process()
+		for _, n := range m.seen {
+			n.Kind()
+			n.Exts()
+			yang.MatchingExtensions(n, "openconfig-extensions", "posix-pattern")
+			yang.MatchingExtensions(n, "f", "ext")
+		}
+	}) {
+		// crashes of Process are C01's business
+		o.Violations = nil
+		return o
+	}
+	m2 := &mirror{o: &o, kinds: map[string]bool{}, again: true}
+	for _, b := range checked {
+		m2.check(b.mod, b.s, nil)
+	}
 	return o
 }
 
@@ -489,7 +527,7 @@ func TestCheck(t *testing.T) {
 		ID:    "C03",
 		Level: "exploration",
 		Rule: "statement trees rooted at module/submodule, grown along the (parent keyword -> child keyword, multiplicity) table read by reflection from goyang's AST structs so that most are accepted and deep, then perturbed 0-2 times: a keyword not valid in that context (another YANG keyword, a random identifier, a two-colon name, the meta-names Name/Statement/Parent/Ext), a second occurrence of a child, removal of a child, prefixed extension statements with and without arguments and children at any level (a third of the trees are also grown with extension statements strewn singly and in runs between the known substatements), another top-level statement, a keyword changed in place. " +
-			"Oracle (a function of the text alone): Modules.Parse returns an error or nil without panicking; if nil, every top-level statement is a (sub)module filed under its name and a reflection walk finds the nodes in one-to-one correspondence with an independently parsed statement tree: back-reference structurally the statement (keyword, argument, position, subtree), name = argument, parent link = enclosing node, each substatement exactly once in the field of its keyword in source order or in the extensions list, counts equal (nothing invented or dropped); pinned mandatory substatements present. " +
+			"Oracle (a function of the text alone): Modules.Parse returns an error or nil without panicking; if nil, every top-level statement is a (sub)module filed under its name and a reflection walk finds the nodes in one-to-one correspondence with an independently parsed statement tree: back-reference structurally the statement (keyword, argument, position, subtree), name = argument, parent link = enclosing node, each substatement exactly once in the field of its keyword in source order or in the extensions list, counts equal (nothing invented or dropped); pinned mandatory substatements present; the same walk is made a second time after Modules.Process and after every node was asked for its kind, its extensions and its extensions of a given name (the tree mirrors the text, whoever has read it in between). " +
 			"Non-trivial = accepted with >= 6 nodes of >= 3 different kinds, or rejected with >= 3 statements, or a panic; distinct by text",
 		Assumptions: []string{
 			"the reflection table steers generation only; acceptance of valid trees is not demanded (the property allows failing with an error)",
